@@ -32,6 +32,8 @@ pub enum Material {
     TruncatedInput(u32),
     /// append this many bytes after the final chunk
     ExtendedInput(u32),
+    /// KESTREL_PASSWORD holds bytes that are not UTF-8
+    EnvPassNotUtf8,
 }
 
 #[derive(Serialize, Deserialize, Clone, Debug, PartialEq)]
@@ -43,6 +45,9 @@ pub struct Wiring {
     pub long: bool,
     pub alias: bool,
     pub opts_first: bool,
+    /// the input file argument is a named pipe fed by another process (only for 1..60000-byte inputs)
+    #[serde(default)]
+    pub in_fifo: bool,
 }
 
 #[derive(Serialize, Deserialize, Clone, Debug, PartialEq)]
@@ -85,6 +90,12 @@ pub struct Scn {
     /// -k is given AND KESTREL_KEYRING points to another keyring: the option must win
     #[serde(default)]
     pub env_keyring_decoy: bool,
+    /// sender and recipient are the same keyring entry (a file encrypted to oneself)
+    #[serde(default)]
+    pub self_addressed: bool,
+    /// the keyring's first entry carries the SENDER's 32 key bytes with a mistyped checksum under another name
+    #[serde(default)]
+    pub sender_twin_bad_checksum: bool,
 }
 
 pub struct B1;
@@ -140,7 +151,13 @@ fn flip_case(s: &str) -> String {
 }
 
 fn keyring_for(w: &World, op: &Op, pos: &SenderPos, bad_decoy: bool, case_decoy: bool) -> String {
-    let mut t = keyring_for_inner(w, op, pos);
+    let mut t = if w.names[0] == w.names[1] {
+        // self-addressed: one entry with the private key, plus the decoy
+        let spec = |i: usize, p: bool| KeySpec { name: w.names[i].clone(), sk: w.sks[i], password: if p { Some(w.pws[i].clone()) } else { None }, salt: w.salts[i] };
+        keyring_text(&[spec(2, false), spec(1, true)])
+    } else {
+        keyring_for_inner(w, op, pos)
+    };
     if case_decoy {
         // one more entry, in front: same name as the key the command will look up, other letter case, other key
         let looked_up = if *op == Op::Encrypt { &w.names[1] } else { &w.names[1] };
@@ -227,6 +244,12 @@ fn build_inv(s: &Scn, w: &World, wi: &Wiring, input_name: &str, out_name: &str) 
     };
     match s.material {
         Material::EnvPassUnset => {}
+        Material::EnvPassNotUtf8 => {
+            // Latin-1 bytes: the tool must refuse the variable, not guess
+            let mut b = right_pw.clone().into_bytes();
+            b.extend_from_slice(&[0x63, 0x61, 0x66, 0xe9, 0xff]);
+            inv.env_bytes.push(("KESTREL_PASSWORD".into(), b));
+        }
         Material::WrongPassword => inv = inv.env("KESTREL_PASSWORD", &format!("{}x", right_pw)),
         _ => inv = inv.env("KESTREL_PASSWORD", &right_pw),
     }
@@ -245,7 +268,7 @@ impl Family for B1 {
         "b1"
     }
     fn properties(&self) -> &'static [&'static str] {
-        &["C12", "C07", "C08", "C05", "C03"]
+        &["C12", "C07", "C08", "C05", "C03", "C04"]
     }
     fn budget(&self, tier: Tier, p: &str) -> u64 {
         let q = match p {
@@ -253,6 +276,7 @@ impl Family for B1 {
             "C05" => 150,
             "C07" => 80,
             "C03" => 80,
+            "C04" => 80,
             _ => 30,
         };
         q * match tier {
@@ -271,10 +295,22 @@ impl Family for B1 {
             Material::Valid
         } else {
             match (&op, rng.below(6)) {
-                (Op::PassEncrypt, _) => Material::EnvPassUnset,
+                (Op::PassEncrypt, k) => {
+                    if k % 2 == 0 {
+                        Material::EnvPassUnset
+                    } else {
+                        Material::EnvPassNotUtf8
+                    }
+                }
                 (_, 0) => Material::WrongPassword,
                 (Op::Encrypt, 1) | (Op::Decrypt, 1) => Material::UnknownName,
-                (_, 2) => Material::EnvPassUnset,
+                (_, 2) => {
+                    if rng.chance(1, 2) {
+                        Material::EnvPassUnset
+                    } else {
+                        Material::EnvPassNotUtf8
+                    }
+                }
                 (Op::Decrypt, _) | (Op::PassDecrypt, _) => match rng.below(4) {
                     0 | 1 => Material::CorruptInput(rng.below(1000) as u32),
                     2 => Material::TruncatedInput(rng.below(1000) as u32),
@@ -293,13 +329,13 @@ impl Family for B1 {
         let mut wirings = vec![];
         if nw == 32 {
             for m in 0..32u32 {
-                wirings.push(Wiring { in_file: m & 1 == 1, stdin_pipe: rng.chance(1, 2) && len <= 60000, out_opt: m & 2 == 2, keyring_opt: m & 4 == 4, long: m & 8 == 8, alias: m & 16 == 16, opts_first: rng.chance(1, 2) });
+                wirings.push(Wiring { in_file: m & 1 == 1, stdin_pipe: rng.chance(1, 2) && len <= 60000, out_opt: m & 2 == 2, keyring_opt: m & 4 == 4, long: m & 8 == 8, alias: m & 16 == 16, opts_first: rng.chance(1, 2), in_fifo: rng.chance(1, 5) });
             }
         } else {
             // a covering sample: the all-default wiring, its complement, and two random ones
             let m0 = rng.below(32) as u32;
             for m in [m0, !m0 & 31, rng.below(32) as u32, rng.below(32) as u32] {
-                wirings.push(Wiring { in_file: m & 1 == 1, stdin_pipe: rng.chance(1, 2) && len <= 60000, out_opt: m & 2 == 2, keyring_opt: m & 4 == 4, long: m & 8 == 8, alias: m & 16 == 16, opts_first: rng.chance(1, 2) });
+                wirings.push(Wiring { in_file: m & 1 == 1, stdin_pipe: rng.chance(1, 2) && len <= 60000, out_opt: m & 2 == 2, keyring_opt: m & 4 == 4, long: m & 8 == 8, alias: m & 16 == 16, opts_first: rng.chance(1, 2), in_fifo: rng.chance(1, 5) });
             }
         }
         // a third of the scenarios: a valid decryption of a file from a stranger whose encoded key
@@ -324,6 +360,8 @@ impl Family for B1 {
             out_name: if rng.chance(1, 6) { Some((*rng.pick(&["enc", "dec", "pass", "out put", "encrypt"])).to_string()) } else { None },
             lookalike_sender,
             case_decoy: rng.chance(1, 4),
+            self_addressed: rng.chance(1, 8),
+            sender_twin_bad_checksum: rng.chance(1, 5),
             prior_is_kestrel_file: rng.chance(1, 2),
             env_keyring_decoy: rng.chance(1, 3),
             // encryptions are often second runs onto the same output name
@@ -334,7 +372,7 @@ impl Family for B1 {
 
     fn execute(&self, s: &Scn) -> RunOut {
         let mut out = RunOut::default();
-        out.props = vec!["C12", "C07", "C08", "C05", "C03"];
+        out.props = vec!["C12", "C07", "C08", "C05", "C03", "C04"];
         let mut w = world(s.seed % 16); // small pool of key worlds: the reference scrypt cache hits
         let mut sender_pos = s.sender_pos.clone();
         if s.lookalike_sender && s.op == Op::Decrypt {
@@ -342,6 +380,13 @@ impl Family for B1 {
             sender_pos = SenderPos::Absent;
             let carol_pk = rp::x25519_base(&w.sks[2]);
             w.sks[0] = lookalike_key(&carol_pk, s.seed, ((s.seed >> 8) % 2) as u8);
+        }
+        if s.self_addressed && !s.lookalike_sender {
+            // one entry is both sender and recipient: alice's name and key are bob's
+            w.sks[0] = w.sks[1];
+            w.names[0] = w.names[1].clone();
+            w.pws[0] = w.pws[1].clone();
+            w.salts[0] = w.salts[1];
         }
         let s = &Scn { sender_pos, ..s.clone() };
         let pt = s.plain.bytes();
@@ -384,7 +429,15 @@ impl Family for B1 {
             _ => input,
         };
         let valid = s.material == Material::Valid;
-        let kr_text = keyring_for(&w, &s.op, &s.sender_pos, s.decoy_bad_checksum, s.case_decoy);
+        let mut kr_text = keyring_for(&w, &s.op, &s.sender_pos, s.decoy_bad_checksum, s.case_decoy);
+        if s.sender_twin_bad_checksum && s.op == Op::Decrypt {
+            // the sender's key bytes under another name with a mistyped checksum, in front of everything
+            let mut enc = pubs[0].to_vec();
+            let mut ck = rp::sha256(&pubs[0])[..4].to_vec();
+            ck[3] ^= 0x01;
+            enc.extend_from_slice(&ck);
+            kr_text = format!("[Key]\nName = mallory-twin-0001\nPublicKey = {}\n\n{}", crate::refmodel::b64::encode(&enc), kr_text);
+        }
         let mut results: Vec<(i32, Option<Vec<u8>>, String)> = vec![];
         let mut produced_files: Vec<Vec<u8>> = vec![];
         let mut runs: Vec<(Wiring, Option<u64>)> = s.wirings.iter().map(|wi| (wi.clone(), Some(s.seed ^ 0x5eed))).collect();
@@ -408,7 +461,10 @@ impl Family for B1 {
                 }
                 w2
             };
-            sb.write(&in_name, &input);
+            let use_fifo = wi.in_fifo && wi.in_file && !input.is_empty() && input.len() <= 60000;
+            if !use_fifo {
+                sb.write(&in_name, &input);
+            }
             let mut prior_salt: Option<Vec<u8>> = None;
             if let (Some(n), true) = (s.prior_output_len, wi.out_opt) {
                 if s.prior_is_kestrel_file {
@@ -433,6 +489,9 @@ impl Family for B1 {
             }
             if s.env_keyring_decoy && wi.keyring_opt && matches!(s.op, Op::Encrypt | Op::Decrypt) {
                 inv = inv.env("KESTREL_KEYRING", "other-keyring.txt");
+            }
+            if use_fifo {
+                inv.fifo = Some((in_name.clone(), input.clone()));
             }
             let fin = run(&sb, &inv);
             if ent.is_some() {
@@ -472,6 +531,14 @@ impl Family for B1 {
                     None => false,
                 },
             };
+            if matches!(s.op, Op::Decrypt | Op::PassDecrypt) {
+                if let Some(o) = &output {
+                    let had_prior = s.prior_output_len.is_some() && wi.out_opt && code != 0;
+                    if !pt.starts_with(o) && !had_prior {
+                        out.violations.push(viol("C04", "cli_released_bytes_not_authentic", format!("wiring {} ({:?}, exit {}): the destination holds {} bytes that are not a prefix of the authentic plaintext ({} bytes)", k, s.material, code, o.len(), pt.len())));
+                    }
+                }
+            }
             if code == 0 && !completed && s.op == Op::Encrypt && s.case_decoy {
                 // to whom was it encrypted, then? the decoy whose name differs only in letter case
                 if let Some(f) = &output {
@@ -497,8 +564,13 @@ impl Family for B1 {
             // sender naming after a successful key decryption
             let mut report = String::new();
             if s.op == Op::Decrypt && code == 0 {
-                let present: Vec<&String> = w.names.iter().filter(|n| stderr.contains(n.as_str())).collect();
-                match s.sender_pos {
+                let mut present: Vec<&String> = w.names.iter().filter(|n| stderr.contains(n.as_str())).collect();
+                present.dedup();
+                if stderr.contains("mallory-twin-0001") {
+                    out.violations.push(viol("C12", "wrong_sender_named", format!("wiring {}: the entry with a mistyped checksum is named as the sender", k)));
+                }
+                let effective_pos = if w.names[0] == w.names[1] { SenderPos::First } else { s.sender_pos.clone() };
+                match effective_pos {
                     SenderPos::Absent => {
                         let enc = rk::encode_pk(&pubs[0]);
                         if !stderr.contains(&enc) {
